@@ -2,7 +2,9 @@
 
 PanGrammar (TLA+) computes, for every statement of a TLC-enumerated family, the fully parenthesised text implied by
 the documented precedence table.  Real parser: parse(w) and parse(Paren(w)) must be the same tree
-("adding the parentheses that the table implies never changes the parse")."""
+("adding the parentheses that the table implies never changes the parse"), and both must be the tree the table prescribes,
+which PanGrammar also prints in the form of the parser's ast String() (an absolute oracle: a rewrite that regroups a statement
+whatever parentheses are written would satisfy the first relation)."""
 import json
 import pvlib
 from pvlib import Check, run_tlc, run_cases, payloads
@@ -42,6 +44,12 @@ def judge(ck, cases, binary, label):
             what = (f"{c['src']!r} parses as {s[4:]!r} but with the table's parentheses {c['paren']!r} as {p[4:]!r}"
                     if s != "syntax" else f"{c['src']!r} is a syntax error although the table gives it the grouping {c['paren']!r}")
             ck.reject(sig, what, {"src": c["src"], "paren": c["paren"], "parse": s, "parse_paren": p, "variant": label})
+        elif s != "ast:" + c["ast"]:
+            # the two parses agree with each other but not with the tree the table prescribes (a rewrite that ignores parentheses)
+            conn = ",".join(str(x) for x in c["c"])
+            ck.reject(f"C02:tree:{label}:c={conn}:u={','.join(str(x) for x in c['u'])}:j={c['j']}",
+                      f"{c['src']!r} parses as {s[4:]!r}; the table prescribes the tree {c['ast']!r}",
+                      {"src": c["src"], "paren": c["paren"], "parse": s, "expected_tree": c["ast"], "variant": label})
         elif c["paren"].count("(") >= 2:
             nontrivial.add(c["src"])
         ck.sample({"src": c["src"], "paren_by_table": c["paren"], "parser_tree": s})
